@@ -20,10 +20,9 @@ THEOREMS = [_T + t for t in [
     "F6_fixed_uprio_counts_inside_lock",
     "F7_fixed_segmented_no_skip",
     "F8_fixed_segmented_no_relink",
-    "F9_fair_pending_drift_strands_sender",
-    "F9b_fair_length_dip_strands_other_sender",
-    "fair_counting_refuted",
-    "F10_fair_late_activation_spurious_nil",
+    "F9_fixed_fair_counts_before_publishing",
+    "F9b_fixed_fair_length_does_not_dip",
+    "F10_fixed_fair_skips_idle_sender",
     "fair_activation_protocol",
     "fair_no_stranded_sender_when_quiescent",
     "fair_subqueue_frame",
@@ -91,8 +90,8 @@ SITES = {
     _A + "unbounded_segmented_mailbox.go:UnboundedSegmentedMailbox.Len": ["Load:length"],
     _A + "unbounded_fair_mailbox.go:activeSenders.enqueue": ["Store:value", "Store:next", "Swap:tail", "Store:next"],
     _A + "unbounded_fair_mailbox.go:activeSenders.dequeue": ["Load:head", "Load:next", "Store:head", "Load:value", "Store:next", "Store:value"],
-    _A + "unbounded_fair_mailbox.go:UnboundedFairMailbox.Enqueue": ["Add:length", "CAS:active", "Add:pending"],
-    _A + "unbounded_fair_mailbox.go:UnboundedFairMailbox.Dequeue": ["Store:active", "Load:length", "Load:pending", "CAS:active", "Add:length", "Add:pending"],
+    _A + "unbounded_fair_mailbox.go:UnboundedFairMailbox.Enqueue": ["Add:length", "Add:pending", "CAS:active"],
+    _A + "unbounded_fair_mailbox.go:UnboundedFairMailbox.Dequeue": ["Store:active", "CAS:active", "Load:length", "Load:pending", "Add:length", "Add:pending"],
     _A + "unbounded_fair_mailbox.go:UnboundedFairMailbox.finalizeSender": ["Store:pending", "Store:active", "Load:pending", "CAS:active"],
     _A + "unbounded_fair_mailbox.go:UnboundedFairMailbox.IsEmpty": ["Load:length"],
     _A + "unbounded_fair_mailbox.go:UnboundedFairMailbox.Len": ["Load:length"],
@@ -121,8 +120,8 @@ SITES = {
 JUDGE = True
 TIMEOUT = 900
 MANIFEST = {
-    "level_text": "All nine mailbox algorithms are modelled in Lean at atomic-operation granularity (one transition per sync/atomic site of the Go code, labels as emitted by yieldinject) and tied to /repo by controlled-schedule replay: same step labels, same results with real-time stamps, same final drain. Kernel-checked: the full property C04_full (history oracle over all mailboxes, programs and schedules) is REFUTED (C04_refuted) by the witness F2 (Vyukov window, inherent), replayed on the real code (corpus/C04); six further defects F3..F8 found by this check were repaired in /repo (fix: commits) and their witness schedules are kept as regression tests on model and code; two more in the fair mailbox are open with kernel-checked witnesses replayed on the real code (F9: message consumed before it is counted, counters drift, sender stranded, message lost; F10: late activation, spurious nil); the reservation-queue specification is FIFO in reservation order and exactly-once for all event sequences (C04_spec_fifo, rq_run_conserve). UnboundedMailbox (the default mailbox, Vyukov MPSC list): forward simulation from the small-step model to the reservation queue for ALL schedules, any number of producers, one consumer (unbounded_forward_simulation, inductive invariant UB.Inv); corollaries for every run (unbounded_linearizable): values returned by Dequeue = the successful dequeues of the specification run = a prefix of the reservation sequence, which never repeats; accepted messages are dequeued or READY (never lost); the recycled sentinel is referenced by nobody (unbounded_recycled_not_aliased); empty-soundness under the guard 'no enqueue between reserve and publish' (C04_empty_sound_partial). Priority mailboxes: container/heap = stableHeap refines a priority queue for all operation sequences and an arbitrary strict weak order (Heap.push_inv/pop_inv/pop_min/pop_perm, heap_all_sequences); heap order is an invariant of every reachable configuration of all four priority mailbox models, so every removal takes a minimum (uprio_priority_order, intake_priority_order), priority-then-arrival for the stable variants (stable_priority_then_arrival); the bounded variants' counter never exceeds the capacity (bounded_priority_capacity); uprio's counter is exact and its critical section exclusive (uprio_empty_sound). NonBlockingBoundedMailbox (Vyukov ring): Owicki-Gries invariants for all schedules: at most size positions reserved and unreleased, slot marks, reject only when full, nil only when the head position is unpublished, no overwrite, no two owners of a position (ring_capacity, ring_reject_only_when_full, ring_nil_only_when_head_unpublished, ring_no_overwrite), and values: the messages returned by Dequeue are exactly the first dequeuePos messages of the reservation sequence, for every schedule (ring_fifo_exactly_once). UnboundedSegmentedMailbox (repaired): slot discipline and head-advance rule, segment-list invariant, and exactly-once + FIFO of the values across segment boundaries for every schedule (segmented_head_advance_rule, segmented_no_skipped_slot, segmented_segment_list, segmented_fifo_exactly_once).",
-    "level_note": "Partial: the simulation to the reservation queue is proved for UnboundedMailbox; for the intake-based priority mailboxes heap refinement, capacity and the Treiber-intake conservation (accepted = inserted into the heap, in acceptance order) and the value-level exactly-once statement (returned ++ heap ++ batch rest ++ stack is a permutation of the accepted messages, intake_exactly_once) are proved; for the fair mailbox the activation protocol is proved for all schedules up to one isolated step (fair_activation_protocol; the re-check with length <= 0 < pending) and its sub-queues are shown to be driven by UnboundedMailbox steps only (fair_subqueue_frame); the counting identity is refuted of the code as it is (fair_counting_refuted) and proved, with 'no stranded sender' as its consequence, for all schedules on which no message is consumed before it is counted (fair_counting_identity, fair_no_stranded_sender; finite-support sum over sender keys plus a count over the thread list); the composite exactly-once statement is false of the code as it is (open findings C04-F9, C04-F10 with fix proposals; design/C04.md says what is missing). BoundedMailbox (third-party Workiva ring buffer) is a black-box parameter, tied sequentially only. sync.Pool is pinned to one P without GC in the harness and modelled as private slot + LIFO. Counter wrap-around at 2^64 is not modelled.",
+    "level_text": "All nine mailbox algorithms are modelled in Lean at atomic-operation granularity (one transition per sync/atomic site of the Go code, labels as emitted by yieldinject) and tied to /repo by controlled-schedule replay: same step labels, same results with real-time stamps, same final drain. Kernel-checked: the full property C04_full (history oracle over all mailboxes, programs and schedules) is REFUTED (C04_refuted) by the witness F2 (Vyukov window, inherent), replayed on the real code (corpus/C04); eight further defects F3..F10 found by this check were repaired in /repo (fix: commits; F9: fair mailbox consumed a message before it was counted, counters drifted, sender stranded, message lost; F10: late activation, spurious nil) and their witness schedules are kept as regression tests on model and code; the reservation-queue specification is FIFO in reservation order and exactly-once for all event sequences (C04_spec_fifo, rq_run_conserve). UnboundedMailbox (the default mailbox, Vyukov MPSC list): forward simulation from the small-step model to the reservation queue for ALL schedules, any number of producers, one consumer (unbounded_forward_simulation, inductive invariant UB.Inv); corollaries for every run (unbounded_linearizable): values returned by Dequeue = the successful dequeues of the specification run = a prefix of the reservation sequence, which never repeats; accepted messages are dequeued or READY (never lost); the recycled sentinel is referenced by nobody (unbounded_recycled_not_aliased); empty-soundness under the guard 'no enqueue between reserve and publish' (C04_empty_sound_partial). Priority mailboxes: container/heap = stableHeap refines a priority queue for all operation sequences and an arbitrary strict weak order (Heap.push_inv/pop_inv/pop_min/pop_perm, heap_all_sequences); heap order is an invariant of every reachable configuration of all four priority mailbox models, so every removal takes a minimum (uprio_priority_order, intake_priority_order), priority-then-arrival for the stable variants (stable_priority_then_arrival); the bounded variants' counter never exceeds the capacity (bounded_priority_capacity); uprio's counter is exact and its critical section exclusive (uprio_empty_sound). NonBlockingBoundedMailbox (Vyukov ring): Owicki-Gries invariants for all schedules: at most size positions reserved and unreleased, slot marks, reject only when full, nil only when the head position is unpublished, no overwrite, no two owners of a position (ring_capacity, ring_reject_only_when_full, ring_nil_only_when_head_unpublished, ring_no_overwrite), and values: the messages returned by Dequeue are exactly the first dequeuePos messages of the reservation sequence, for every schedule (ring_fifo_exactly_once). UnboundedSegmentedMailbox (repaired): slot discipline and head-advance rule, segment-list invariant, and exactly-once + FIFO of the values across segment boundaries for every schedule (segmented_head_advance_rule, segmented_no_skipped_slot, segmented_segment_list, segmented_fifo_exactly_once).",
+    "level_note": "Partial: the simulation to the reservation queue is proved for UnboundedMailbox; for the intake-based priority mailboxes heap refinement, capacity and the Treiber-intake conservation (accepted = inserted into the heap, in acceptance order) and the value-level exactly-once statement (returned ++ heap ++ batch rest ++ stack is a permutation of the accepted messages, intake_exactly_once) are proved; for the fair mailbox the activation protocol is proved for all schedules up to one isolated step (fair_activation_protocol; the re-check with length <= 0 < pending) and its sub-queues are shown to be driven by UnboundedMailbox steps only (fair_subqueue_frame); the counting identity is proved, with 'no stranded sender' as its consequence, for all schedules on which no message is consumed before it is counted (fair_counting_identity, fair_no_stranded_sender; finite-support sum over sender keys plus a count over the thread list); that the repaired code (762e7d2) never does so, and the active-list structure, are not proved, so its composite exactly-once statement is tied and judged on every run only (design/C04.md says what is missing). BoundedMailbox (third-party Workiva ring buffer) is a black-box parameter, tied sequentially only. sync.Pool is pinned to one P without GC in the harness and modelled as private slot + LIFO. Counter wrap-around at 2^64 is not modelled.",
     "technique": "Lean 4 small-step models + controlled-schedule differential (cooperative scheduler injected at every atomic operation) + history oracle with real-time intervals",
 }
 TRUSTED = [
@@ -581,11 +580,15 @@ def oracle(case, impl, judge):
     mine = ("bad " + _KIND.get(fails[0].split(":")[0], "?")) if fails else "ok"
     if judge is not None and judge != mine:
         return f"judge: Lean spec oracle says {judge!r}, python mirror says {mine!r}" + (" (" + fails[0] + ")" if fails else "")
+    if fails and p[0] == "fair":
+        late, unc = fair_events(case, impl)
+        return fails[0] + f" [late-activation={late} uncounted-consumption={unc}]"
     return fails[0] if fails else None
 
 
 def fair_events(case, impl):
-    """(late_activation, uncounted_consumption) of a fair-mailbox run, recomputed from the trace.
+    """(late_activation, uncounted_consumption) of a fair-mailbox run, recomputed from the trace
+    (diagnostic only since 762e7d2/6fbb6ce: F9/F10 are repaired, `classify` no longer uses it; `oracle` appends it to a fair-mailbox failure).
     pending[k] is replayed from the `Add:pending` steps: the n-th one of a producer thread belongs to its
     n-th enqueue (key from the program), the n-th one of the consumer to its n-th successful Dequeue (key of
     the message it returned); `Store:pending` is finalizeSender's reset to 0.
@@ -648,7 +651,7 @@ def fair_events(case, impl):
 
 def classify(case, impl, why):
     """map an oracle failure to a known finding id — exact signature only.
-    (F3..F8 are repaired in /repo; their signatures were removed so that a regression is a VIOLATION.)"""
+    (F3..F10 are repaired in /repo; their signatures were removed so that a regression is a VIOLATION.)"""
     if not why or not impl:
         return None
     kind = case.split("|")[0].split()[0]
@@ -659,13 +662,6 @@ def classify(case, impl, why):
         # IsEmpty is affected only where it follows the links (unbounded)
         if infl >= 1 and kind in VYUKOV_TYPES and ("Dequeue=nil" in why or kind == "unbounded"):
             return "C04-F2"
-    # C04-F9 / C04-F10 (fair mailbox): exact trace events, see fair_events
-    if kind == "fair" and (why.startswith("lost") or why.startswith("empty-unsound")):
-        late, uncounted = fair_events(case, impl)
-        if uncounted:
-            return "C04-F9"
-        if late:
-            return "C04-F10"
     # not a recorded finding: name the violated clause, so that the shrinker keeps to failures of the
     # same clause (a pure model/implementation difference has no oracle failure and is classified None)
     head = why.split(":")[0]
